@@ -10,6 +10,8 @@ C16.crud   : letter -> (HTTP method, collection | item) read from the arms of th
              and, independently, from gen_routes -> bottle emitters -> route template decorators;
              both must equal {C: (post, collection), R: (get, item), D: (delete, item)}.
 C16.params : the item path's placeholder variable is declared as a path parameter in the same dict.
+C16.state  : no function of the OpenAPI pipeline memoises or writes module-level state (C10's rules on
+             that slice): operation objects of one model / document are not shared with the next.
 """
 
 import ast
@@ -290,6 +292,50 @@ def run(ctx):
                 "" if got == want else "requested {} must produce {} on the {} path, the emitter produces {}".format(letter, want[0].upper(), want[1], got),
                 line=f.node.lineno,
             )
+        # reachability of each arm: over every requested CRUD value (all orderings of all non-empty subsets of
+        # C, R, D) the arm of letter L must execute exactly when L is requested. The path condition of an arm
+        # (enclosing tests with polarity + its own test) mentions only `crud`; it is folded for each value.
+        import itertools
+
+        from ..fold import Unknown, fold
+
+        arms = {}
+        for n in iter_own(f.node):
+            if isinstance(n, ast.If) and isinstance(n.test, ast.Compare) and isinstance(n.test.ops[0], ast.In) and isinstance(n.test.left, ast.Constant) and norm(n.test.comparators[0]) == "crud":
+                if n.test.left.value in EXPECTED:
+                    arms[n.test.left.value] = n
+        domain = ["".join(p_) for r_ in (1, 2, 3) for p_ in itertools.permutations("CRD", r_)]
+        ctx.count("crud_values_enumerated", len(domain))
+        for letter, arm in sorted(arms.items()):
+            conds = [(arm.test, True)]
+            child, p_ = arm, f.mod.parents.get(arm)
+            while p_ is not None and p_ is not f.node:
+                if isinstance(p_, ast.If):
+                    conds.append((p_.test, child in p_.body))
+                elif isinstance(p_, (ast.For, ast.While, ast.Try, ast.With)):
+                    ctx.need(False, "the arm for {} sits inside a {} the reachability rule does not model".format(letter, type(p_).__name__))
+                child, p_ = p_, f.mod.parents.get(p_)
+            bad = None
+            for value in domain:
+                try:
+                    reached = all(bool(fold(t_, {"crud": value}, None)) is pol for t_, pol in conds)
+                except Unknown as x:
+                    ctx.need(False, "cannot fold the path condition of the {} arm for crud={!r}: {}".format(letter, value, x))
+                if reached != (letter in value):
+                    bad = (value, reached)
+                    break
+            ctx.ob(
+                "C16.crud",
+                f,
+                "arm {} executes exactly when {} is requested ({})".format(letter, letter, " and ".join(("" if pol else "not ") + "(" + short(t_, 50) + ")" for t_, pol in reversed(conds))),
+                bad is None,
+                ""
+                if bad is None
+                else "with crud={!r} the {} operation is {}: the document does not match the requested CRUD".format(
+                    bad[0], EXPECTED[letter][0].upper(), "emitted although not requested" if bad[1] else "not emitted although requested"
+                ),
+                line=arm.lineno,
+            )
         extra = sorted(set(emit_table) - set(EXPECTED))
         ctx.ob("C16.crud", f, "no operation beyond C/R/D", not extra, "" if not extra else "unexpected letters handled: {}".format(extra), line=f.node.lineno)
         # the routes side
@@ -376,3 +422,28 @@ def run(ctx):
 
     ctx.section(_sec_params)
 
+
+    def _sec_state():
+        # --------------------------------------------------------------- state
+        # "1..3 models per document": the operation / schema objects of one model (and of one document) must
+        # not be shared with the next. Re-runs C10's module-state and memoisation rules on the functions
+        # reachable from the two document builders and the route parser.
+        from ..core import RefGraph
+        from . import c10
+
+        graph = RefGraph(index)
+        roots = [
+            "cdd.compound.openapi.gen_openapi.openapi_bulk",
+            "cdd.compound.openapi.emit.openapi",
+            "cdd.compound.openapi.parse.openapi",
+            "cdd.routes.parse.bottle.bottle",
+            "cdd.compound.openapi.gen_routes.gen_routes",
+        ]
+        for r in roots:
+            index.func(r)
+        reach = graph.reachable(roots)
+        ctx.count("state_functions", len(reach))
+        ctx.need(len(reach) >= 40, "the OpenAPI pipeline shrank to {} functions: call graph no longer resolves it".format(len(reach)))
+        c10._modstate(ctx.view(lambda w: getattr(w, "qual", None) in reach, rule="C16.state", prefix="state_"))
+
+    ctx.section(_sec_state)
